@@ -42,6 +42,15 @@ ParseBody(toks) ==
          IF ~p.ok THEN [ok |-> FALSE, why |-> p.why, sure |-> TRUE]
          ELSE [ok |-> TRUE, nproof |-> p.cpfrom - 3, cpfrom |-> p.cpfrom, sure |-> toks[1] = "size"]
 
+\* generator for C11: every token sequence up to length n with the parser's verdict
+AllBodies(n) == UNION {[1..k -> Tokens] : k \in 0..n}
+EmitBodies(n) == \A t \in AllBodies(n) : PrintT("TOK " \o ToJson([toks |-> t, exp |-> ParseBody(t)]))
+\* the parser never understands a body partly: it accepts exactly the bodies of the form  size-line b64* blank anything*
+GrammarSane(n) ==
+    \A t \in AllBodies(n) :
+        ParseBody(t).ok = (/\ Len(t) >= 2 /\ t[1] \in {"size", "sloppy"}
+                           /\ \E j \in 2..Len(t) : t[j] = "blank" /\ \A m \in 2..(j-1) : t[m] = "b64")
+
 -----------------------------------------------------------------------------
 StatusOf(v) ==
     CASE v = "Accept"         -> 200
